@@ -224,7 +224,11 @@ func (w *world) muxApply(op string) string {
 	case strings.HasPrefix(op, "X"):
 		w.garbage(num("X"))
 	case strings.HasPrefix(op, "L"):
-		w.streams[num("L")].sender.GetStream().ResetStream(types.StreamLocalReset)
+		// (guarded: a reset blocks for ever if the connection's stream table is locked by a stuck goroutine)
+		st := w.streams[num("L")].sender.GetStream()
+		if !muxGuard(func() { st.ResetStream(types.StreamLocalReset) }) {
+			return "hang"
+		}
 	case strings.HasPrefix(op, "G"):
 		ci := num("G")
 		w.writeUp(ci, w.ppGoAway())
@@ -251,7 +255,10 @@ func (w *world) muxApply(op string) string {
 			m.up.c.Close()
 		}
 	case strings.HasPrefix(op, "CL"):
-		w.conns[num("CL")].conn.Close(api.NoFlush, api.LocalClose)
+		cn := w.conns[num("CL")].conn
+		if !muxGuard(func() { cn.Close(api.NoFlush, api.LocalClose) }) {
+			return "hang"
+		}
 	case op == "S":
 		w.pool.Shutdown()
 		waitFor(settleTimeout, func() bool { _, sd := w.muxSlots(); return sd })
@@ -274,6 +281,18 @@ func (w *world) muxApply(op string) string {
 	}
 	w.settle()
 	return res
+}
+
+// muxGuard runs f on its own goroutine and reports whether it returned within 3 s.
+func muxGuard(f func()) bool {
+	done := make(chan struct{})
+	go func() { f(); close(done) }()
+	select {
+	case <-done:
+		return true
+	case <-time.After(3 * time.Second):
+		return false
+	}
 }
 
 func (w *world) muxValid(op string) bool {
@@ -339,6 +358,7 @@ func muxRunOps(c *hx.Ctx, maxConn, maxReq uint32, next func(w *world, step int) 
 		if op == "" || !w.muxValid(op) {
 			break
 		}
+		before := w.timeouts
 		res := w.muxApply(op)
 		ops = append(ops, op)
 		if res == "hang" {
@@ -347,6 +367,12 @@ func muxRunOps(c *hx.Ctx, maxConn, maxReq uint32, next func(w *world, step int) 
 			break
 		}
 		obs = append(obs, res+";"+w.muxSnapshot())
+		if w.timeouts > before {
+			// the pool did not become quiescent: a goroutine of MOSN is stuck; the history ends here and the
+			// connections are left alone (closing them could block on whatever it is stuck on)
+			hung = true
+			break
+		}
 	}
 	return ops, obs, w
 }
